@@ -45,7 +45,7 @@ TEXT = {
  'C12': 'the parent of every node after every root_attach execution equals a set-based reference of the docstring; nothing but root children moves; fields untouched. All shapes up to 5/6 tokens plus random trees with 1..9 root children. Held on the executions observed.',
  'C16': 'gap degree, blocks, tree gap degree, continuous reordering are compared with set-based runs on every node; GapDegree/PosTags/SentenceCount totals via API and via real `treetools treeanalysis` processes; agreement of the three discontinuity notions per tree. Held on the executions observed.',
  'C19': 'every evaluation of children/terminals/preorder/postorder/siblings/lca/dominance/levels/export numbering made during the workload (incl. the internal ones) is compared with a set-based model; all unordered tree shapes up to 5 (quick) / 6 (thorough) tokens with shuffled child lists plus random trees to 40 tokens. Held on the executions observed, not a proof.',
- 'C20': 'format(parse(s)) == s (modulo the two documented default literals), exact removal of each emptied component, trace recognition, separator handling and get_label decorations are checked on every string over an 8-letter alphabet up to length 6 (quick) / 8 (thorough) and on structured random labels with known parts. Held on the executions observed.',
+ 'C20': 'format(parse(s)) == s (modulo the two documented default literals), exact removal of each emptied component, trace recognition, separator handling and get_label decorations are checked on every string over a 9-letter alphabet (letters, digits 1 and 0, dash, equals, hash, apostrophe, asterisk) up to length 6 (quick) / 7 (thorough) and on structured random labels with known parts. Held on the executions observed.',
 }
 NOTE = 'trusted: vt/model.py (independent set-based tree model), the spec generators; the repository is only executed and observed. Hooks are attached from outside (no source change).'
 def main():
